@@ -284,8 +284,7 @@ def style_of_sample(text, comm):
     return (prec, flags, dc)
 
 
-def err_kind(stderr):
-    t = stderr
+def _kind_of(t):
     if "Transaction does not balance" in t:
         return "unbalanced"
     if "Only one posting with null amount allowed" in t:
@@ -298,14 +297,23 @@ def err_kind(stderr):
         return "amount"
     if "Balance assertion off by" in t:
         return "assert-off"
-    if "Error:" in t:
-        return "other"
-    return None
+    return "other"
+
+
+def err_kinds(stderr):
+    """every error ledger reports, in the order it reports them (it goes on parsing after an error)."""
+    return [_kind_of(l) for l in stderr.split("\n") if l.startswith("Error:")]
+
+
+def err_kind(stderr):
+    """the FIRST error: the model stops there."""
+    ks = err_kinds(stderr)
+    return ks[0] if ks else None
 
 
 class Obs:
     """canonical observation of one presentation of a journal on the binary."""
-    __slots__ = ("err", "bal", "rawbal", "groups", "rows", "styles", "stderr", "cmdfail")
+    __slots__ = ("err", "errs", "bal", "rawbal", "groups", "rows", "styles", "stderr", "cmdfail")
 
     def key(self):
         return (self.err, self.bal, self.groups, self.styles)
@@ -328,10 +336,12 @@ def observe(files, main):
     o.stderr = (err1 or "")[-600:].replace(d, "<tmp>")
     o.cmdfail = None
     o.err = None
+    o.errs = ()
     o.bal = o.rawbal = o.groups = o.rows = o.styles = None
     if rc1 != 0 or rc2 != 0:
-        k1, k2 = err_kind(err1 or ""), err_kind(err2 or "")
-        o.err = k1 or k2 or "rc=%s/%s" % (rc1, rc2)
+        k1, k2 = err_kinds(err1 or ""), err_kinds(err2 or "")
+        o.err = (k1 or k2 or ["rc=%s/%s" % (rc1, rc2)])[0]     # what the model, which stops at the first error, must answer
+        o.errs = tuple(sorted(k1 or k2 or [o.err]))            # what any other presentation must report (as a multiset)
         if k1 != k2:
             o.cmdfail = "bal and reg fail differently: %r vs %r" % (k1, k2)
         return o
@@ -481,8 +491,9 @@ def compare_obs(a, b, kind, elided_accounts):
     out = []
     if a.cmdfail or b.cmdfail:
         return [("C08:observation", a.cmdfail or b.cmdfail)]
-    if a.err != b.err:
-        return [("C08:accept:%s" % kind, "accepted/rejected differently: base %s, variant %s" % (a.err or "ok", b.err or "ok"))]
+    if a.errs != b.errs:
+        return [("C08:accept:%s" % kind, "accepted/rejected differently: base %s, variant %s" %
+                 (",".join(a.errs) or "ok", ",".join(b.errs) or "ok"))]
     if a.err:
         return []
     if a.bal != b.bal:
@@ -660,6 +671,7 @@ def evaluate(ctx, case, variants, report=True):
         ctx.feature("case:exactlyBalanced=" + base_m["flags"][1])
     elided = case.elided_accounts()
     res = {"fail": [], "tie": []}
+    intent_differs = False
     for (kind, lay, po), (files, mj), o, m in zip(variants, real, obs, models):
         ctx.count()
         ctx.feature("variant:" + kind)
@@ -673,8 +685,13 @@ def evaluate(ctx, case, variants, report=True):
         if m["flags"] and len(m["flags"]) >= 4 and m["err"] != "driver":
             if m["flags"][2] != "1":
                 res["tie"].append((kind, "model: loading the file tree differs from loading its flattening", files, mj))
-            if in_fragment and m["flags"][3] != "1":
-                res["tie"].append((kind, "model reads a written amount differently from what the generator meant", files, mj))
+            if m["flags"][3] != "1" and kind == "base":
+                # The generator meant another quantity than the model reads (e.g. `1.212,266534 EUX` written before EUX
+                # is flagged DECIMAL_COMMA: both the model and the binary answer "Too many periods in amount").  That is
+                # a property of the generated text, not a correspondence difference: whether the BINARY reads it like the
+                # model is decided by model_vs_binary above; here it is only counted.
+                ctx.feature("generator-intent-differs")
+                intent_differs = True
         if o.err:
             ctx.feature("impl:err:" + o.err)
         if kind == "base":
@@ -688,7 +705,7 @@ def evaluate(ctx, case, variants, report=True):
             res["fail"].append((fp, what, kind, lay, po, files))
     if in_fragment:
         ctx.feature("case:in-fragment")
-        if len(xs) >= 2 and base_o.err is None:
+        if len(xs) >= 2 and base_o.err is None and not intent_differs:
             nonzero_groups = len(base_o.groups or ())
             ctx.nontrivial((case.name, base_o.bal, nonzero_groups))
     else:
